@@ -379,6 +379,43 @@ def ring_is_simple(pts):
     return True
 
 
+def ring_is_simple_grid(pts):
+    """Same verdict as ring_is_simple, in about O(n): edges are bucketed on a uniform grid whose pitch is the longest
+    edge's extent, and only edges sharing a bucket are tested against each other."""
+    n = len(pts)
+    if len(set(pts)) != n:
+        return False
+    h = 0.0
+    for i in range(n):
+        a, b = pts[i], pts[(i + 1) % n]
+        h = max(h, abs(a[0] - b[0]), abs(a[1] - b[1]))
+    if not (h > 0.0) or not math.isfinite(h):
+        return False
+    x0 = min(p[0] for p in pts)
+    y0 = min(p[1] for p in pts)
+    buckets = {}
+    for i in range(n):
+        a, b = pts[i], pts[(i + 1) % n]
+        ix0, ix1 = sorted((int((a[0] - x0) / h), int((b[0] - x0) / h)))
+        iy0, iy1 = sorted((int((a[1] - y0) / h), int((b[1] - y0) / h)))
+        for ix in range(ix0, ix1 + 1):
+            for iy in range(iy0, iy1 + 1):
+                buckets.setdefault((ix, iy), []).append(i)
+    done = set()
+    for members in buckets.values():
+        m = len(members)
+        for u in range(m):
+            i = members[u]
+            for v in range(u + 1, m):
+                j = members[v]
+                if (j + 1) % n == i or (i + 1) % n == j or (i, j) in done:
+                    continue
+                done.add((i, j))
+                if segments_cross(pts[i], pts[(i + 1) % n], pts[j], pts[(j + 1) % n]):
+                    return False
+    return True
+
+
 # --------------------------------------------------------------------------------------------
 # the dodecahedral frame (used only to aim generators and to classify cases)
 # --------------------------------------------------------------------------------------------
